@@ -1,17 +1,490 @@
-//! Engine `cli` — placeholder (not written yet).
+//! Engine `cli` (C20): the built `minidump-stackwalk` binary over the cross product of output
+//! options on a corpus of files, against (a) the Lean decision table `MdModel.Cli.cli` and
+//! (b) the reports the library produces in-process for the same file and options.
+//!
+//! case line: `cli <flags> file:<id> feat:<0|1|2> out:<0|1> log:<0|1> sym:<0..4>`
+//!   flags ⊆ "hjcdbp" (human json cyborg dump brief pretty) or "-"
+//!   file ids: t:<name> (repo testdata) | missing | empty | dir | garbage:<seed> | trunc:<name>:<len>
+//!             | mut:<name>:<seed> (byte-mutated copy)
+//! The model request is `cli <flags> <input class>`; the class (unreadable / unprocessable / ok) is
+//! determined by running the library in-process.
+
 use crate::common::*;
+use crate::gen::dump_printer::print_minidump_dump;
+use minidump::Minidump;
+use minidump_processor::ProcessorOptions;
+use minidump_unwind::{simple_symbol_supplier, MultiSymbolProvider, Symbolizer};
+use std::path::{Path, PathBuf};
+use std::process::{Command, Stdio};
+use std::sync::atomic::{AtomicU64, Ordering};
 
 pub struct Cli;
+
+static COUNTER: AtomicU64 = AtomicU64::new(0);
+/// input class per (file id, features, symbols) as determined by `exec` (saves a second in-process run)
+static CLASSES: std::sync::Mutex<Option<std::collections::HashMap<String, &'static str>>> = std::sync::Mutex::new(None);
+
+fn repo() -> PathBuf {
+    PathBuf::from(std::env::var("VERIF_REPO").unwrap_or_else(|_| "/repo".into()))
+}
+fn verif() -> PathBuf {
+    // harness/target/release/mdharness -> /verif
+    let exe = std::env::current_exe().unwrap();
+    exe.ancestors().nth(4).unwrap().to_path_buf()
+}
+fn tool() -> PathBuf {
+    match std::env::var("VERIF_TARGET_REPO") {
+        Ok(d) => PathBuf::from(d).join("release/minidump-stackwalk"),
+        Err(_) => verif().join("harness/target-repo/release/minidump-stackwalk"),
+    }
+}
+fn scratch() -> PathBuf {
+    let d = verif().join(".scratch/cli").join(std::process::id().to_string());
+    std::fs::create_dir_all(&d).unwrap();
+    d
+}
+
+const TESTDATA: &[&str] = &[
+    "test.dmp",
+    "linux-mini.dmp",
+    "simple-crashpad.dmp",
+    "invalid-range.dmp",
+    "invalid-record-count.dmp",
+    "invalid-parameter.dmp",
+    "pipeline-inlines-macos-segv.dmp",
+];
+
+/// materialise the file denoted by `id`; returns its path (which may not exist, for `missing`)
+fn materialise(id: &str, dir: &Path) -> PathBuf {
+    let parts: Vec<&str> = id.split(':').collect();
+    match parts[0] {
+        "t" => repo().join("testdata").join(parts[1]),
+        "missing" => dir.join("does-not-exist.dmp"),
+        "empty" => {
+            let p = dir.join("empty.dmp");
+            std::fs::write(&p, b"").unwrap();
+            p
+        }
+        "dir" => {
+            let p = dir.join("a-directory");
+            std::fs::create_dir_all(&p).unwrap();
+            p
+        }
+        "garbage" => {
+            let mut rng = Rng::new(parts[1].parse().unwrap_or(0));
+            let n = rng.range(1, 4096) as usize;
+            let mut bytes: Vec<u8> = (0..n).map(|_| rng.next() as u8).collect();
+            if rng.chance(1, 2) && n >= 4 {
+                bytes[..4].copy_from_slice(b"MDMP");
+            }
+            let p = dir.join("garbage.dmp");
+            std::fs::write(&p, bytes).unwrap();
+            p
+        }
+        "trunc" => {
+            let bytes = std::fs::read(repo().join("testdata").join(parts[1])).unwrap();
+            let n: usize = parts[2].parse().unwrap_or(0);
+            let p = dir.join("trunc.dmp");
+            std::fs::write(&p, &bytes[..n.min(bytes.len())]).unwrap();
+            p
+        }
+        "mut" => {
+            let mut bytes = std::fs::read(repo().join("testdata").join(parts[1])).unwrap();
+            let mut rng = Rng::new(parts[2].parse().unwrap_or(0));
+            let k = rng.range(1, 8);
+            for _ in 0..k {
+                let i = rng.below(bytes.len() as u64) as usize;
+                let v = *rng.pick(&[0u8, 1, 0x7f, 0x80, 0xff, 0x10]);
+                // mostly corrupt the header/directory/stream headers (first 4 KiB)
+                let i = if rng.chance(3, 4) { i % 4096.min(bytes.len()) } else { i };
+                bytes[i] = v;
+            }
+            let p = dir.join("mut.dmp");
+            std::fs::write(&p, bytes).unwrap();
+            p
+        }
+        _ => dir.join("bad-id"),
+    }
+}
+
+/// symbol path forms: 0 none | 1 positional | 2 --symbols-path | 3 --symbols-path <empty dir> + positional
+/// symbols | 4 --symbols-path symbols + positional <empty dir>. Returns (named, positional).
+fn sym_paths(sym: u32) -> (Vec<PathBuf>, Vec<PathBuf>) {
+    let symdir = repo().join("testdata/symbols");
+    let empty = verif().join(".scratch/cli/empty-symbols");
+    let _ = std::fs::create_dir_all(&empty);
+    match sym {
+        1 => (vec![], vec![symdir]),
+        2 => (vec![symdir], vec![]),
+        3 => (vec![empty], vec![symdir]),
+        4 => (vec![symdir], vec![empty]),
+        _ => (vec![], vec![]),
+    }
+}
+
+struct Case {
+    flags: String,
+    file: String,
+    feat: u32,
+    out: bool,
+    log: bool,
+    sym: u32,
+}
+
+fn parse_case(case: &str) -> Option<Case> {
+    let f: Vec<&str> = case.split(' ').filter(|s| !s.is_empty()).collect();
+    if f.len() != 7 || f[0] != "cli" {
+        return None;
+    }
+    Some(Case {
+        flags: f[1].to_string(),
+        file: f[2].strip_prefix("file:")?.to_string(),
+        feat: f[3].strip_prefix("feat:")?.parse().ok()?,
+        out: f[4].strip_prefix("out:")? == "1",
+        log: f[5].strip_prefix("log:")? == "1",
+        sym: f[6].strip_prefix("sym:")?.parse().ok()?,
+    })
+}
+
+/// What the library produces in-process for this file.
+struct Lib {
+    class: &'static str, // unreadable | unprocessable | ok
+    human: Vec<u8>,
+    human_brief: Vec<u8>,
+    json: Vec<u8>,
+    json_pretty: Vec<u8>,
+    dump: Vec<u8>,
+    dump_brief: Vec<u8>,
+    panicked: Option<String>,
+}
+
+fn library(path: &Path, feat: u32, sym: u32) -> Lib {
+    let mut lib = Lib {
+        class: "unreadable",
+        human: vec![],
+        human_brief: vec![],
+        json: vec![],
+        json_pretty: vec![],
+        dump: vec![],
+        dump_brief: vec![],
+        panicked: None,
+    };
+    let r = catch(|| {
+        let dump = match Minidump::read_path(path) {
+            Ok(d) => d,
+            Err(_) => return ("unreadable", vec![]),
+        };
+        let mut outs: Vec<Vec<u8>> = vec![];
+        for brief in [false, true] {
+            let mut v = vec![];
+            print_minidump_dump(&dump, &mut v, brief).unwrap();
+            outs.push(v);
+        }
+        let mut options = match feat {
+            0 => ProcessorOptions::stable_basic(),
+            1 => ProcessorOptions::stable_all(),
+            _ => ProcessorOptions::unstable_all(),
+        };
+        // main.rs overrides these from the command line (not given): None / false
+        options.evil_json = None;
+        options.recover_function_args = false;
+        let mut provider = MultiSymbolProvider::new();
+        // the tool merges `--symbols-path` values and positional paths, in that order
+        let (named, positional) = sym_paths(sym);
+        let all: Vec<PathBuf> = named.into_iter().chain(positional).collect();
+        if !all.is_empty() {
+            provider.add(Box::new(Symbolizer::new(simple_symbol_supplier(all))));
+        }
+        let rt = tokio::runtime::Builder::new_current_thread().enable_all().build().unwrap();
+        let state = rt.block_on(minidump_processor::process_minidump_with_options(&dump, &provider, options));
+        match state {
+            Err(_) => ("unprocessable", outs),
+            Ok(state) => {
+                let mut h = vec![];
+                state.print(&mut h).unwrap();
+                let mut hb = vec![];
+                state.print_brief(&mut hb).unwrap();
+                let mut j = vec![];
+                state.print_json(&mut j, false).unwrap();
+                let mut jp = vec![];
+                state.print_json(&mut jp, true).unwrap();
+                outs.extend([h, hb, j, jp]);
+                ("ok", outs)
+            }
+        }
+    });
+    match r {
+        Err(msg) => {
+            lib.panicked = Some(msg);
+        }
+        Ok((class, mut outs)) => {
+            lib.class = class;
+            if outs.len() >= 2 {
+                lib.dump = std::mem::take(&mut outs[0]);
+                lib.dump_brief = std::mem::take(&mut outs[1]);
+            }
+            if outs.len() >= 6 {
+                lib.human = std::mem::take(&mut outs[2]);
+                lib.human_brief = std::mem::take(&mut outs[3]);
+                lib.json = std::mem::take(&mut outs[4]);
+                lib.json_pretty = std::mem::take(&mut outs[5]);
+            }
+        }
+    }
+    lib
+}
+
+fn classify(bytes: &[u8], lib: &Lib, brief: bool, pretty: bool) -> String {
+    if bytes.is_empty() {
+        return "-".into();
+    }
+    // candidates ordered so that byte-identical reports are named consistently with the flags
+    let mut cands: Vec<(&str, &Vec<u8>)> = vec![];
+    if lib.class == "ok" {
+        if brief {
+            cands.push(("human-brief", &lib.human_brief));
+            cands.push(("human", &lib.human));
+        } else {
+            cands.push(("human", &lib.human));
+            cands.push(("human-brief", &lib.human_brief));
+        }
+        if pretty {
+            cands.push(("json-pretty", &lib.json_pretty));
+            cands.push(("json", &lib.json));
+        } else {
+            cands.push(("json", &lib.json));
+            cands.push(("json-pretty", &lib.json_pretty));
+        }
+    }
+    if lib.class != "unreadable" {
+        if brief {
+            cands.push(("dump-brief", &lib.dump_brief));
+            cands.push(("dump", &lib.dump));
+        } else {
+            cands.push(("dump", &lib.dump));
+            cands.push(("dump-brief", &lib.dump_brief));
+        }
+    }
+    for (name, c) in &cands {
+        if !c.is_empty() && bytes == c.as_slice() {
+            return (*name).into();
+        }
+    }
+    // two reports back to back?
+    for (n1, c1) in &cands {
+        for (n2, c2) in &cands {
+            if !c1.is_empty() && !c2.is_empty() && bytes.len() == c1.len() + c2.len() && bytes.starts_with(c1) && bytes.ends_with(c2) {
+                return format!("{n1}+{n2}");
+            }
+        }
+    }
+    format!("UNKNOWN[{} bytes, fnv {:016x}]", bytes.len(), fnv64(bytes))
+}
 
 impl Engine for Cli {
     fn name(&self) -> &'static str {
         "cli"
     }
     fn rule(&self) -> String {
-        "not implemented".into()
+        "case = (output flags ⊆ {--human,--json,--cyborg F,--dump,--brief,--pretty}, file, --features value, --output-file?, --log-file?, symbol path form); all 64 flag sets x files (7 repo dumps, missing, empty, directory, garbage, truncations, byte-mutated dumps) with the other options cycled; the built binary is run and its exit status/stdout/stderr/files are compared with the Lean decision table and with the library's reports computed in-process on the same file. non-trivial = the tool accepted the options and the file was readable (a report was due); distinct = distinct case line".into()
     }
-    fn generate(&self, _tier: Tier, _rng: &mut Rng, _emit: &mut dyn FnMut(String)) {}
-    fn exec(&self, _case: &str) -> ImplResult {
-        ImplResult::default()
+    fn exhaustive_part(&self) -> Option<String> {
+        Some("all 64 subsets of {human,json,cyborg,dump,brief,pretty} for every corpus file (the decision table's whole flag space)".into())
+    }
+
+    fn generate(&self, tier: Tier, rng: &mut Rng, emit: &mut dyn FnMut(String)) {
+        let mut files: Vec<String> = TESTDATA.iter().map(|n| format!("t:{n}")).collect();
+        files.extend(["missing".to_string(), "empty".into(), "dir".into()]);
+        let extra = if tier == Tier::Quick { 3 } else { 24 };
+        for _ in 0..extra {
+            files.push(format!("garbage:{}", rng.below(1 << 32)));
+            let name = *rng.pick(&["test.dmp", "linux-mini.dmp", "simple-crashpad.dmp"]);
+            let len = std::fs::metadata(repo().join("testdata").join(name)).map(|m| m.len()).unwrap_or(1000);
+            files.push(format!("trunc:{name}:{}", rng.below(len)));
+            files.push(format!("mut:{name}:{}", rng.below(1 << 32)));
+        }
+        let mut k = 0u32;
+        for file in &files {
+            for mask in 0..64u32 {
+                let mut flags = String::new();
+                for (i, c) in "hjcdbp".chars().enumerate() {
+                    if mask & (1 << i) != 0 {
+                        flags.push(c);
+                    }
+                }
+                if flags.is_empty() {
+                    flags.push('-');
+                }
+                // cycle the options that do not take part in the decision
+                k = k.wrapping_add(1);
+                let variants: &[(u32, u32, u32, u32)] = if tier == Tier::Quick {
+                    &[(0, 0, 0, 0)]
+                } else {
+                    &[(0, 0, 0, 0), (1, 1, 0, 1), (2, 0, 1, 2), (2, 1, 1, 0)]
+                };
+                for (vi, v) in variants.iter().enumerate() {
+                    let (feat, out, log, sym) = if tier == Tier::Quick {
+                        (k % 3, (k / 3) % 2, (k / 6) % 2, (k / 12) % 5)
+                    } else {
+                        (v.0, v.1, v.2, (v.3 + vi as u32 + k) % 5)
+                    };
+                    emit(format!("cli {flags} file:{file} feat:{feat} out:{out} log:{log} sym:{sym}"));
+                }
+            }
+        }
+    }
+
+    fn model_request(&self, case: &str) -> Option<String> {
+        let c = parse_case(case)?;
+        let key = format!("{}|{}|{}", c.file, c.feat, c.sym);
+        if let Some(class) = CLASSES.lock().unwrap().as_ref().and_then(|m| m.get(&key).copied()) {
+            return Some(format!("cli {} {}", c.flags, class));
+        }
+        let dir = scratch().join(format!("m{}", COUNTER.fetch_add(1, Ordering::Relaxed)));
+        std::fs::create_dir_all(&dir).ok()?;
+        let path = materialise(&c.file, &dir);
+        let lib = library(&path, c.feat, c.sym);
+        let _ = std::fs::remove_dir_all(&dir);
+        Some(format!("cli {} {}", c.flags, lib.class))
+    }
+
+    fn exec(&self, case: &str) -> ImplResult {
+        let mut res = ImplResult::default();
+        let Some(c) = parse_case(case) else {
+            res.out = "bad-op".into();
+            return res;
+        };
+        let dir = scratch().join(format!("c{}", COUNTER.fetch_add(1, Ordering::Relaxed)));
+        std::fs::create_dir_all(&dir).unwrap();
+        let path = materialise(&c.file, &dir);
+        let lib = library(&path, c.feat, c.sym);
+        CLASSES
+            .lock()
+            .unwrap()
+            .get_or_insert_with(Default::default)
+            .insert(format!("{}|{}|{}", c.file, c.feat, c.sym), lib.class);
+        res.tags.push(format!("input:{}", lib.class));
+        res.tags.push(format!("file:{}", c.file.split(':').next().unwrap()));
+
+        let out_file = dir.join("out.txt");
+        let cyborg_file = dir.join("cyborg.json");
+        let log_file = dir.join("log.txt");
+        let mut args: Vec<String> = vec![];
+        let has = |ch: char| c.flags.contains(ch);
+        if has('h') {
+            args.push("--human".into());
+        }
+        if has('j') {
+            args.push("--json".into());
+        }
+        if has('c') {
+            args.push("--cyborg".into());
+            args.push(cyborg_file.display().to_string());
+        }
+        if has('d') {
+            args.push("--dump".into());
+        }
+        if has('b') {
+            args.push("--brief".into());
+        }
+        if has('p') {
+            args.push("--pretty".into());
+        }
+        args.push("--features".into());
+        args.push(["stable-basic", "stable-all", "unstable-all"][c.feat as usize % 3].into());
+        if c.out {
+            args.push("--output-file".into());
+            args.push(out_file.display().to_string());
+        }
+        if c.log {
+            args.push("--log-file".into());
+            args.push(log_file.display().to_string());
+        }
+        args.push("--no-interactive".into());
+        let (named, positional) = sym_paths(c.sym);
+        for p in &named {
+            args.push("--symbols-path".into());
+            args.push(p.display().to_string());
+        }
+        args.push(path.display().to_string());
+        for p in &positional {
+            args.push(p.display().to_string());
+        }
+        let output = Command::new(tool())
+            .args(&args)
+            .env("RUST_BACKTRACE", "0")
+            .env("NO_COLOR", "1")
+            .stdin(Stdio::null())
+            .output();
+        let output = match output {
+            Ok(o) => o,
+            Err(e) => {
+                res.out = format!("cannot run tool: {e}");
+                res.oracle.push(("tool-not-runnable".into(), format!("{}: {e}", tool().display())));
+                return res;
+            }
+        };
+        let stdout = output.stdout;
+        let stderr = String::from_utf8_lossy(&output.stderr).to_string();
+        let log = std::fs::read_to_string(&log_file).unwrap_or_default();
+        let primary: Vec<u8> = if c.out { std::fs::read(&out_file).unwrap_or_default() } else { stdout.clone() };
+        let cyborg: Vec<u8> = std::fs::read(&cyborg_file).unwrap_or_default();
+        let diag = format!("{stderr}{log}");
+        let brief = has('b');
+        let pretty = has('p');
+        match output.status.code() {
+            Some(0) => {
+                let p = classify(&primary, &lib, brief, pretty);
+                let cy = classify(&cyborg, &lib, brief, pretty);
+                res.out = format!("exit0 primary:{p} cyborg:{cy}");
+                res.nontrivial = true;
+                if p.starts_with("UNKNOWN") || cy.starts_with("UNKNOWN") {
+                    res.oracle.push((
+                        "report-differs-from-library".into(),
+                        format!("args {args:?}: primary={p} cyborg={cy}; library class {}", lib.class),
+                    ));
+                }
+                if c.out && !stdout.is_empty() {
+                    res.oracle.push(("stdout-not-empty-with-output-file".into(), format!("args {args:?}: {} bytes on stdout", stdout.len())));
+                }
+                if p == "-" && cy == "-" {
+                    res.oracle.push(("exit0-without-report".into(), format!("args {args:?}")));
+                }
+            }
+            Some(1) => {
+                res.out = "exit1".into();
+                if !primary.is_empty() || !stdout.is_empty() || !cyborg.is_empty() {
+                    res.oracle.push((
+                        "failure-wrote-output".into(),
+                        format!("args {args:?}: exit 1 but primary={}B stdout={}B cyborg={}B", primary.len(), stdout.len(), cyborg.len()),
+                    ));
+                }
+                if diag.trim().is_empty() {
+                    res.oracle.push(("failure-without-diagnostic".into(), format!("args {args:?}")));
+                }
+            }
+            Some(2) => {
+                res.out = "usage".into();
+                if !primary.is_empty() || !stdout.is_empty() || !cyborg.is_empty() {
+                    res.oracle.push(("usage-error-wrote-output".into(), format!("args {args:?}")));
+                }
+                if stderr.trim().is_empty() {
+                    res.oracle.push(("usage-error-without-diagnostic".into(), format!("args {args:?}")));
+                }
+            }
+            other => {
+                res.out = format!("ABNORMAL {other:?}");
+                let tail: String = diag.lines().rev().take(3).collect::<Vec<_>>().join(" | ");
+                res.oracle.push((
+                    "abnormal-exit".into(),
+                    format!("args {args:?}: status {:?} ({tail})", output.status),
+                ));
+            }
+        }
+        if let Some(msg) = &lib.panicked {
+            res.oracle.push(("library-panics-on-file".into(), format!("file {}: {msg}", c.file)));
+        }
+        let _ = std::fs::remove_dir_all(&dir);
+        res
     }
 }
